@@ -63,7 +63,7 @@ def main():
     try:
         # the agent's script hard-codes its own worktree path: rewrite it to the scratch tree
         eq = open(os.path.join(dst, "equiv.py")).read()
-        eq = re.sub(r"/tmp/wt6?-C\d\d", scratch, eq)
+        eq = re.sub(r"/tmp/wt\w?-C\d\d", scratch, eq)
         os.makedirs(os.path.join(scratch, "_refactor"), exist_ok=True)
         open(os.path.join(scratch, "_refactor", "equiv.py"), "w").write(eq)
         env = dict(os.environ, PYTHONPATH=os.path.join(scratch, "src"), PYTHONHASHSEED="0")
